@@ -978,9 +978,18 @@ func checkContainer(c *Ctx, rule string) {
 	c.Check(okAssign, rule, "block writers are assigned to tracks in description order", iw.Pos(), "t.writer = ws[i] ranging over conn.tracks with len(ws) == len(conn.tracks)", "a track can receive another track's block writer (audio written as video)")
 	// document type
 	okDoc := false
+	var webmFlag types.Object
 	ast.Inspect(iw.Body(), func(n ast.Node) bool {
 		s, ok := n.(*ast.IfStmt)
-		if !ok || types.ExprString(s.Cond) != "!isWebm" {
+		if !ok {
+			return true
+		}
+		u, isNot := unparen(s.Cond).(*ast.UnaryExpr)
+		if !isNot || u.Op != token.NOT {
+			return true
+		}
+		fid, isId := unparen(u.X).(*ast.Ident)
+		if !isId {
 			return true
 		}
 		ext, doc := false, false
@@ -997,18 +1006,82 @@ func checkContainer(c *Ctx, rule string) {
 			}
 			return true
 		})
-		okDoc = ext && doc
-		return true
-	})
-	// isWebm = false only in the h264 branch
-	nFalse := 0
-	ast.Inspect(iw.Body(), func(n ast.Node) bool {
-		if as, ok := n.(*ast.AssignStmt); ok && len(as.Lhs) == 1 && types.ExprString(as.Lhs[0]) == "isWebm" && as.Tok == token.ASSIGN {
-			nFalse++
+		if ext && doc {
+			okDoc = true
+			webmFlag = info.Uses[fid]
 		}
 		return true
 	})
-	c.Check(okDoc && nFalse == 1, rule, "H.264 recordings are declared as Matroska", iw.Pos(), "!isWebm => extension mkv and DocType matroska", "an H.264 recording is declared as WebM (or a VPx one as Matroska with a .webm name)")
+	// the flag (and the locals it is copied from) becomes false only where the track's
+	// codec compared equal to H.264 - or together with an error that is returned
+	nFalse, okFalse := 0, true
+	if webmFlag != nil {
+		chain := map[types.Object]bool{webmFlag: true}
+		for changed := true; changed; {
+			changed = false
+			ast.Inspect(iw.Body(), func(n ast.Node) bool {
+				as, isAs := n.(*ast.AssignStmt)
+				if !isAs || len(as.Lhs) != len(as.Rhs) {
+					return true
+				}
+				for i, l := range as.Lhs {
+					lid, isL := l.(*ast.Ident)
+					rid, isR := unparen(as.Rhs[i]).(*ast.Ident)
+					if isL && isR && chain[info.ObjectOf(lid)] {
+						if v, isV := info.Uses[rid].(*types.Var); isV && !chain[v] {
+							chain[v] = true
+							changed = true
+						}
+					}
+				}
+				return true
+			})
+		}
+		ast.Inspect(iw.Body(), func(n ast.Node) bool {
+			as, isAs := n.(*ast.AssignStmt)
+			if !isAs || len(as.Lhs) != len(as.Rhs) {
+				return true
+			}
+			for i, l := range as.Lhs {
+				lid, isL := l.(*ast.Ident)
+				if !isL || !chain[info.ObjectOf(lid)] {
+					continue
+				}
+				tv := info.Types[as.Rhs[i]]
+				if tv.Value == nil || tv.Value.String() != "false" {
+					continue
+				}
+				// with an error in the same assignment: the value is not used
+				withErr := false
+				for j, r := range as.Rhs {
+					if j != i && !isNilIdent(info, r) {
+						if t := info.TypeOf(as.Lhs[j]); t != nil && types.Identical(t, types.Universe.Lookup("error").Type()) {
+							withErr = true
+						}
+					}
+				}
+				if withErr {
+					continue
+				}
+				nFalse++
+				st, _ := ffw.At(as)
+				h264 := false
+				if st != nil {
+					for _, f := range st.Facts() {
+						if f.Op == "true" && f.Pos && f.A.K == 'k' && f.A.Name == "strings.EqualFold" && len(f.A.Args) == 2 && f.A.Args[1].K == 'c' && strings.EqualFold(strings.Trim(f.A.Args[1].Name, "\""), "video/h264") {
+							h264 = true
+						}
+					}
+				}
+				if !h264 {
+					okFalse = false
+				}
+			}
+			return true
+		})
+	}
+	okDoc = okDoc && okFalse
+	c.Check(okDoc && nFalse >= 1, rule, "H.264 recordings are declared as Matroska", iw.Pos(), "!isWebm => extension mkv and DocType matroska", "an H.264 recording is declared as WebM (or a VPx one as Matroska with a .webm name)")
 }
 
 // R20.7: unit consistency of the origin arithmetic: a duration is converted
